@@ -17,7 +17,7 @@ import hashlib
 import hmac
 import os
 
-from harness.common import REJECT, REPO, xb, xs, unx, uns, blist, batch_parallel, pmap
+from harness.common import MachineryError, REJECT, REPO, xb, xs, unx, uns, blist, batch_parallel, pmap
 
 PROPERTY = "C14"
 DRIVERS = ["drv_c14"]
@@ -184,6 +184,30 @@ def vendored_reads(name, password, salt, iterations, reads):
     return [obj.read(n) for n in reads]
 
 
+def pbkdf2_history(name, password, salt, iterations, ops):
+    """a history of read / hexread / close calls on ONE vendored PBKDF2 object; a call that raises answers RAISED and
+    the history goes on with the same object"""
+    from buidl.pbkdf2 import PBKDF2
+    obj = PBKDF2(password, salt, iterations, digestmodule=getattr(hashlib, name), macmodule=hmac)
+    out = []
+    for op in ops:
+        try:
+            if op == "c":
+                obj.close()
+                out.append("ok")
+            elif op[0] == "r":
+                out.append(xb(obj.read(int(op[1:]))))
+            elif op[0] == "h":
+                out.append(xs(obj.hexread(int(op[1:]))))
+            else:
+                raise UnknownOp(op)
+        except UnknownOp:
+            raise
+        except Exception:
+            out.append("RAISED")
+    return " ".join([str(len(out))] + out)
+
+
 def _wordlist(name):
     if name == "bip39":
         import buidl.mnemonic as M
@@ -229,6 +253,16 @@ def _impl(t):
         return xb(hashlib.pbkdf2_hmac(t[1], unx(t[2]), unx(t[3]), int(t[4]), int(t[5])))
     if op == "utf8":
         return xb(uns(t[1]).encode("utf-8"))
+    if op == "contains":
+        return "1" if uns(t[2]) in _wordlist(t[1]) else "0"
+    if op == "pbkdf2ops":
+        if t[1] not in HASHES:
+            raise UnknownOp(t[1])
+        k = int(t[5])
+        ops = t[6:]
+        if len(ops) != k:
+            raise UnknownOp("pbkdf2ops: malformed op list")
+        return pbkdf2_history(t[1], unx(t[2]), unx(t[3]), int(t[4]), ops)
     raise UnknownOp(op)
 
 
@@ -365,7 +399,83 @@ def p_fingerprint(c):
     return got == WORDLIST_SHA256[c["list"]], got, WORDLIST_SHA256[c["list"]]
 
 
-PREDICATES = {"wordlist_fingerprint": p_fingerprint, "wordlist_tables": p_wordlist, "roundtrip": p_roundtrip, "words_layout": p_words, "acceptance": p_accept, "pbkdf2_rfc2898": p_pbkdf2,
+def p_pbkdf2_history(c):
+    """ONE object read in chunks (read / hexread mixed, zero-length reads, single bytes, reads across block boundaries):
+    the concatenation equals a one-shot read of a fresh object and hashlib.pbkdf2_hmac; the same history on a second
+    fresh object gives the same answers"""
+    from buidl.pbkdf2 import PBKDF2
+    name, pw, salt, it = c["hash"], unx(c["pass"]), unx(c["salt"]), c["iterations"]
+
+    def once():
+        obj = PBKDF2(pw, salt, it, digestmodule=getattr(hashlib, name), macmodule=hmac)
+        out = b""
+        for kind, n in c["ops"]:
+            out += obj.read(n) if kind == "r" else bytes.fromhex(obj.hexread(n))
+        return out
+    first, second = once(), once()
+    total = sum(n for _, n in c["ops"])
+    oneshot = PBKDF2(pw, salt, it, digestmodule=getattr(hashlib, name), macmodule=hmac).read(total)
+    ref = hashlib.pbkdf2_hmac(name, pw, salt, it, total) if total else b""
+    got = [xb(first), xb(second), xb(oneshot)]
+    return got == [xb(ref)] * 3, got, [xb(ref)] * 3
+
+
+def p_wordlist_history(c):
+    """one WordList object (a fresh instance, and the module-level BIP39 / SLIP39) asked many things in sequence — str
+    lookups, int lookups, normalize, `in`, iteration — every query twice, interleaved: the answers are those of the
+    independent oracle both times and the object's tables are unchanged afterwards"""
+    import buidl.mnemonic as M
+    import buidl.shamir as S
+    name = c["list"]
+    words, index, prefix = _table(name)
+    objs = [M.WordList(name + "_words.txt", len(words)), M.BIP39 if name == "bip39" else S.SLIP39]
+    bad = []
+    for wl in objs:
+        before = (list(wl.words), dict(wl.lookup))
+
+        def ask(q):
+            try:
+                if q[0] == "s":
+                    return wl[q[1]]
+                if q[0] == "i":
+                    return wl[q[1]]
+                if q[0] == "n":
+                    return wl.normalize(q[1])
+                if q[0] == "in":
+                    return q[1] in wl
+                if q[0] == "iter":
+                    return sum(1 for _ in wl)
+            except Exception:
+                return REJECT
+
+        def want(q):
+            if q[0] == "s":
+                if q[1] in index:
+                    return index[q[1]]
+                ids = prefix.get(q[1], [])
+                return ids[-1] if len(q[1]) == 4 and ids else REJECT
+            if q[0] == "i":
+                return words[q[1]] if -len(words) <= q[1] < len(words) else REJECT
+            if q[0] == "n":
+                w = want(("s", q[1].lower()))
+                return words[w] if w != REJECT else REJECT
+            if q[0] == "in":
+                return q[1] in words
+            return len(words)
+        qs = [tuple(q) for q in c["queries"]]
+        first = [ask(q) for q in qs]
+        second = [ask(q) for q in reversed(qs)][::-1]
+        third = [x for q in qs for x in (ask(q), ask(q))]
+        exp = [want(q) for q in qs]
+        if first != exp or second != exp or third != [x for e in exp for x in (e, e)]:
+            bad.append("answers differ")
+        if (list(wl.words), dict(wl.lookup)) != before:
+            bad.append("tables changed")
+    return not bad, bad, []
+
+
+PREDICATES = {"pbkdf2_history": p_pbkdf2_history, "wordlist_history": p_wordlist_history,
+              "wordlist_fingerprint": p_fingerprint, "wordlist_tables": p_wordlist, "roundtrip": p_roundtrip, "words_layout": p_words, "acceptance": p_accept, "pbkdf2_rfc2898": p_pbkdf2,
               "from_mnemonic": p_from_mnemonic, "prefix_same": p_prefix_same, "trezor_vector": p_trezor}
 
 
@@ -724,6 +834,37 @@ def run(ctx):
     for ws in [rng.choice(valid) for _ in range(ctx.n(4))]:
         pb("sha512", " ".join(ws).encode(), b"mnemonic" + rng.choice(passphrases()), 2048, [64], kind="pbkdf2v_manyrounds")
 
+    # ---- histories on ONE object
+    def hist_ops(h):
+        cat = [["r0", "r1", "r0", f"h{h}", "r1"], ["r1"] * (h + 2), [f"h{h - 1}", "r2", f"h{h}", f"r{h + 1}", "h0", f"r{3 * h}"],
+               ["h1"] * 5 + [f"r{2 * h - 5}"], ["r5", "c", "r5", "h5", "c", "r0"], ["c", "c", "r1"], [f"r{h}", f"h{h}", "c"],
+               ["r0", "h0", "c", "h0"], [f"h{2 * h + 1}", "r1", "r1", f"h{h - 2}"]]
+        cat.append([rng.choice("rh") + str(rng.choice([0, 1, 2, h - 1, h, h + 1, rng.randrange(0, 3 * h)]))
+                    for _ in range(rng.randrange(2, 9))])
+        return cat
+    for name, h in HASHES.items():
+        for ops in hist_ops(h):
+            for _ in range(ctx.n(2)):
+                pw, salt, it = rbytes(rng, rng.choice(pwlens)), rbytes(rng, rng.randrange(0, 40)), rng.choice([1, 2, 3, 7])
+                add("pbkdf2_history", f"pbkdf2ops {name} {xb(pw)} {xb(salt)} {it} {len(ops)} " + " ".join(ops))
+                if "c" not in ops:
+                    preds.append(("pbkdf2_history", {"hash": name, "pass": xb(pw), "salt": xb(salt), "iterations": it,
+                                                     "ops": [[o[0], int(o[1:])] for o in ops]}))
+        add("pbkdf2_history", f"pbkdf2ops {name} {xb(b'pw')} {xb(b'salt')} 0 2 r1 c")
+    add("pbkdf2_history", f"pbkdf2ops sha512 {xb(b'pw')} {xb(b'salt')} 2048 6 r0 h1 r62 h1 r1 h64")
+    for name, (WL, WLI) in (("bip39", (W, WI)), ("slip39", (SW, SWI))):
+        for w in [WL[0], WL[-1], WL[len(WL) // 2], WL[0][:4], "zzzz", "", WL[1].upper()] + [rng.choice(WL) for _ in range(ctx.n(40))]:
+            add("contains", f"contains {name} {xs(w)}")
+            add("contains", f"contains {name} {xs(w[:4])}")
+        for _ in range(ctx.n(3)):
+            qs = []
+            for _ in range(ctx.n(120)):
+                w = rng.choice(WL)
+                qs.append(rng.choice([("s", w), ("s", w[:4]), ("s", w[:3]), ("s", w + "x"), ("s", w.upper()), ("i", WLI[w]),
+                                      ("i", len(WL)), ("i", -1), ("i", rng.randrange(0, len(WL))), ("n", w), ("n", w[:4]),
+                                      ("n", w.capitalize()), ("n", "qqqq"), ("in", w), ("in", w[:4]), ("iter", 0)]))
+            preds.append(("wordlist_history", {"list": name, "queries": [list(q) for q in qs]}))
+
     # ---- utf8
     for s in ["", "a", "\x00", "\x7f", "\x80", "\u07ff", "\u0800", "\ud7ff", "\ue000", "\uffff", "\U00010000", "\U0010ffff",
               "pässwörd€", "日本語 zoo", " ".join(valid[0])]:
@@ -763,6 +904,19 @@ def run(ctx):
             rec.sample(kind, {"request": line, "answer": model})
         if impl == REJECT:
             rec.count(kind + ":reject")
+    # every query a second time, in the opposite order, in this same process (objects and module tables are reused):
+    # all light lines, a sample of the heavy ones; the driver likewise
+    again = [i for i in range(len(lines)) if not heavy_line(lines[i][1])]
+    heavy_idx = [i for i in range(len(lines)) if heavy_line(lines[i][1])]
+    again += ctx.sub_rng("again").sample(heavy_idx, min(len(heavy_idx), ctx.n(12)))
+    again.sort(reverse=True)
+    again_model = batch_parallel(drv, [model_line(lines[i][1]) for i in again], workers=ctx.workers)
+    for i, m2 in zip(again, again_model):
+        kind, line = lines[i]
+        if m2 != answers[i]:
+            raise MachineryError(f"driver answered differently the second time: {line[:200]}")
+        rec.compare(kind + ":again", {"line": line, "second_time": True}, impl_line(line), answers[i],
+                    determined=True, key=_key("again " + line))
     for i, (kind, case) in enumerate(preds):
         ok, got, want = hres[i] if i in hres else eval_pred(kind, case)
         rec.cov_pred(kind, case)
